@@ -531,7 +531,7 @@ theorem reset_after_use (cs maxDoc : Nat) (adds : List (Nat × List Nat)) :
 
 /-- Protocol violation: `SetChunkSize` on a coder that was NOT reset leaves
     stale lengths in the spare capacity; a later grow makes them visible. -/
-theorem setChunkSize_without_reset_is_unsafe :
+theorem setChunkSize_without_reset_is_wrong :
     let r := (((ReCoder.fresh 1 2).add 0 [1]).add 1 [1]).add 2 [1] |>.close
     ((r.setChunkSize 1 0).reset.setChunkSize 1 2).c ≠ IntCoder.new 1 2 := by
   have h1 : putUvarint 1 = [1] := putUvarint_lt (by decide)
